@@ -62,7 +62,7 @@ class Lower:
         self.stubs = dict(unit.STUBS)                 # key -> C function (or dict with opts)
         self.throwing = set(getattr(unit, 'THROWING', []))   # C names of stubs that may raise
         self.opaque = set(getattr(unit, 'OPAQUE', []))
-        self.guarded = {}                              # C struct type -> destructor cname
+        self.guarded = dict(getattr(unit, 'GUARDED_STUBS', {}))   # C struct type -> destructor cname
         self.records = {}                              # qname -> decl
         self.rec_cname = {}
         self.fn_by_canon = {}
@@ -138,7 +138,7 @@ class Lower:
         e = self.find_enum(t)
         if e:
             return e
-        if allow_opaque and (t in self.opaque or (getattr(self.u, 'OPAQUE_UNKNOWN', False) and ('std::' in t or '<' in t))):
+        if allow_opaque and (t in self.opaque or getattr(self.u, 'OPAQUE_ANY', False) or (getattr(self.u, 'OPAQUE_UNKNOWN', False) and ('std::' in t or '<' in t))):
             self.assumptions.add('opaque library type: %s' % t)
             return 'struct vs_opaque'
         raise Abort('no C type for C++ type %r' % qt)
@@ -874,7 +874,7 @@ class Lower:
         ptypes = self.param_types_from_sig(self.qt(tgt) if tgt else self.qt(me))
         isstub = isinstance(name, dict) or name not in self.fn_info
         if isinstance(name, dict):
-            return self.stub_expand(name, objp, self.args(tgt, ins[1:], ptypes, drop_defaults=True), n)
+            return self.stub_expand(name, objp, [self.E(a) for a in ins[1:] if a.get('kind') != 'CXXDefaultArgExpr'], n)
         argl = [objp] + self.args(tgt, ins[1:], ptypes, drop_defaults=isstub)
         sig = self.qt(tgt) if tgt else self.qt(me)
         isref = self.ret_of_sig(sig).endswith('&') or n.get('valueCategory') == 'lvalue'
@@ -1001,8 +1001,8 @@ class Lower:
         ins = self.inner(n)
         rec = norm_type((n['type'].get('desugaredQualType') or n['type']['qualType']))
         ctort = n.get('ctorType', {}).get('qualType', '')
-        # copy / move construction of a value: C struct copy
-        if len(ins) == 1 and re.match(r'^void \((const )?.*(&&|&)\)( noexcept)?$', ctort):
+        # copy / move construction of a value: C struct copy (unless the unit models the constructor explicitly)
+        if ('ctor:%s/1' % rec) not in self.stubs and len(ins) == 1 and re.match(r'^void \((const )?[^,]*(&&|&)\)( noexcept(\(\w+\))?)?$', ctort):
             pt = norm_type(self.param_types_from_sig(ctort)[0])
             if strip_ptr(pt) == rec or strip_ptr(pt).split('::')[-1] == rec.split('::')[-1]:
                 return self.E(ins[0])
@@ -1363,7 +1363,7 @@ class Lower:
             rec = norm_type(core['type'].get('desugaredQualType') or core['type']['qualType'])
             r = self.find_record(rec)
             ctort = core.get('ctorType', {}).get('qualType', '')
-            iscopy = len(self.inner(core)) == 1 and re.match(r'^void \((const )?.*(&&|&)\)( noexcept)?$', ctort) and \
+            iscopy = len(self.inner(core)) == 1 and re.match(r'^void \((const )?[^,]*(&&|&)\)( noexcept(\(\w+\))?)?$', ctort) and \
                 strip_ptr(norm_type(self.param_types_from_sig(ctort)[0])).split('::')[-1] == rec.split('::')[-1]
             if r and not iscopy:
                 cname, cd = self.ctor_for(r, ctort)
@@ -1627,8 +1627,15 @@ class Lower:
         r = self.find_record(strip_ptr(ft)) if not ft.endswith(('*', '&')) else None
         if r and core.get('kind') == 'CXXConstructExpr':
             ctort = core.get('ctorType', {}).get('qualType', '')
+            cins = self.inner(core)
+            if len(cins) == 1 and re.match(r'^void \((const )?[^,]*(&&|&)\)( noexcept(\(\w+\))?)?$', ctort) and \
+                    strip_ptr(norm_type(self.param_types_from_sig(ctort)[0])).split('::')[-1] == r.split('::')[-1]:
+                return '    %s = %s;\n' % (lhs, self.E(cins[0]))      # defaulted copy/move construction: member-wise copy
+            if not cins and not any(i['decl'].get('kind') == 'CXXConstructorDecl' and '::'.join(i['q'].split('::')[:-1]) == r and not params_of(i['decl']) for i in self.fn_info.values()):
+                self.need_defaults.add(r)                          # defaulted default constructor
+                return '    vs_default_%s(&%s);\n' % (self.mangle(r), lhs)
             cname, cd = self.ctor_for(r, ctort)
-            argl = ['&' + lhs] + self.args(cd, self.inner(core))
+            argl = ['&' + lhs] + self.args(cd, cins)
             call = self.emit_call(cname, argl, None)
             return ('    ' + call + ';\n') if call != '((void)0)' else ''
         x = self.E(init)
